@@ -88,9 +88,11 @@ func NewServer(rc *core.RunCtx, v *uni.Variant, plan *refexec.Plan) *Server {
 	}
 	s.Ex = executor.New(s.U.ES)
 	s.Ex.SetRecoverFunc(rec)
+	s.Ex.Use(uni.Interceptor{U: s.U})
 	s.H = handler.New(s.U.ES)
 	s.H.AddTransport(transport.POST{})
 	s.H.SetRecoverFunc(rec)
+	s.H.Use(uni.Interceptor{U: s.U})
 	return s
 }
 
